@@ -81,6 +81,36 @@ impl<T: Payload> World<T> {
     pub fn do_tree_macro(&mut self, shape: u8, root: Option<Key>, kbase: Key, val: u32, out: &mut StepOut) {
         let depths = shape_depths(shape);
         let root_id = root.map(|k| self.m.id(k));
+        if let Some(rk) = root.filter(|k| self.m.is_tomb(*k)) {
+            // tree! under a removed node: every written child is an attempt to insert under it and
+            // must be refused (the expansion's append_value panics) without changing the arena (C12)
+            let _ = rk;
+            self.stats.probe("tree_macro_on_tombstone");
+            let snapshot = self.arena.clone();
+            let obs = self.state_digest();
+            let r = raw_tree(&mut self.arena, root_id, shape, val);
+            let unchanged = self.arena == snapshot && self.state_digest() == obs;
+            out.rel = crate::rel::Rel::TombA;
+            match r {
+                Err(_) => {
+                    out.class = Class::Panic;
+                    if !unchanged {
+                        out.viols.push(crate::world::viol("C12", "changed_after_refused_call", "tree! with a removed root panicked but changed the arena"));
+                        self.diverged = true;
+                    }
+                }
+                Ok(_) => {
+                    if !depths.is_empty() {
+                        out.viols.push(crate::world::viol("C12", "insert_under_removed_accepted", "tree! with a removed root and at least one written child did not panic"));
+                        self.diverged = true;
+                    } else if !unchanged {
+                        out.viols.push(crate::world::viol("C12", "changed_after_refused_call", "tree! with a removed root and no children changed the arena"));
+                        self.diverged = true;
+                    }
+                }
+            }
+            return;
+        }
         let count_before = self.arena.count();
         let old_kids = root.map_or(0, |k| self.m.n(k).kids.len());
         let r = raw_tree(&mut self.arena, root_id, shape, val);
